@@ -241,6 +241,36 @@ theorem feasibleTour_iff_check_and_width (i : Inst) (hf : i.force = true) (as : 
   · rintro ⟨hc, hl⟩
     exact check_sound_partial_force_tour i hf hl hc
 
+theorem plainCheck_eq_checkActs (acts : List Nat) : plainCheck acts = checkActs acts := rfl
+
+/-- **C06 (PDP, no forced start), repaired clause**: with every size taken from the instance the checker
+accepts exactly the feasible customer sequences. -/
+theorem checkWith_true_iff (i : Inst) (hf : i.force = false) (cs : List Nat) :
+    checkWith true i cs = true ↔ Spec.Pdp.Feasible i.h cs := by
+  rw [checkWith_eq, feasible_iff_check_and_width i hf cs, check_unfold]
+  simp only [actsOf, hf, Bool.false_eq_true, if_false, Bool.not_true, Bool.false_or, Bool.and_eq_true,
+    decide_eq_true_eq, List.length_cons]
+  constructor
+  · rintro ⟨h1, h2⟩; exact ⟨h2, by omega⟩
+  · rintro ⟨h1, h2⟩; exact ⟨by omega, h1⟩
+
+/-- **C06 (PDP, forced start), repaired clause**: accepts exactly the feasible closed depot tours. -/
+theorem checkWith_true_iff_force (i : Inst) (hf : i.force = true) (as : List Nat) :
+    checkWith true i as = true ↔ Spec.Pdp.FeasibleTour i.h as := by
+  rw [checkWith_eq, feasibleTour_iff_check_and_width i hf as, check_unfold]
+  simp only [actsOf, hf, if_true, Bool.not_true, Bool.false_or, Bool.and_eq_true, decide_eq_true_eq]
+  exact ⟨fun ⟨h1, h2⟩ => ⟨h2, h1⟩, fun ⟨h1, h2⟩ => ⟨h2, h1⟩⟩
+
+theorem width_source_is_action_tensor : Params.pdpCheckWidthFromInst = false := rfl
+
+theorem check_sound_complete_of_fixed (hfix : Params.pdpCheckWidthFromInst = true) (i : Inst)
+    (hf : i.force = false) (cs : List Nat) : check i cs = true ↔ Spec.Pdp.Feasible i.h cs := by
+  rw [check, hfix]; exact checkWith_true_iff i hf cs
+
+theorem check_sound_complete_of_fixed_force (hfix : Params.pdpCheckWidthFromInst = true) (i : Inst)
+    (hf : i.force = true) (as : List Nat) : check i as = true ↔ Spec.Pdp.FeasibleTour i.h as := by
+  rw [check, hfix]; exact checkWith_true_iff_force i hf as
+
 /-- Non-vacuity. -/
 example : check ⟨2, false, fun _ _ => 0⟩ [2, 1, 4, 3] = true :=
   check_complete _ rfl ((Spec.Pdp.feasible_iff 2 _).mp (by decide))
